@@ -22,6 +22,16 @@ fn decode_body(body: &[u8]) -> Result<Message, String> {
     }
 }
 
+/// The same body through a reader that returns short reads (legal for `Read`).
+fn decode_body_dribbled(body: &[u8], seed: u64) -> Result<Message, String> {
+    let mut r = mon::DribbleReader::new(Cursor::new(body), seed);
+    match mon::catch(|| decode_volume_coverage_pattern(&mut r)) {
+        Ok(Ok(m)) => Ok(m),
+        Ok(Err(e)) => Err(format!("error {e:?}")),
+        Err(p) => Err(p.signature()),
+    }
+}
+
 fn cmp_layout(obs: &mut Obs, spec: &Vcp, got: &Message, replay: &serde_json::Value) -> bool {
     let mut ok = true;
     let mut bad = |field: &str, want: String, g: String| {
@@ -373,6 +383,15 @@ distinct = distinct (cut count, layout seed) and raw values; oracle = fields at 
                     }
                 }
             }
+            // the result must not depend on how the reader chunks its data
+            match (decode_body(&body), decode_body_dribbled(&body, mix(n as u64, rep))) {
+                (Ok(a), Ok(b)) if a == b => ctx.obs.count("short_read_decodes_identical", 1),
+                (a, b) => ctx.obs.violation(
+                    "decoding depends on how the reader chunks the bytes (short reads)",
+                    format!("{} cuts: slice reader {:?}, dribbling reader {:?}", n, a.map(|m| m.elevations.len()), b.map(|m| m.elevations.len())),
+                    replay.clone(),
+                ),
+            }
             check_summary(&mut ctx.obs, &spec, &mut rng, &replay);
             // one cut short => error (raw body), any strict prefix => error
             if n > 0 {
@@ -409,6 +428,23 @@ distinct = distinct (cut count, layout seed) and raw values; oracle = fields at 
                     replay,
                 ),
                 Err(p) => ctx.obs.violation(format!("decode_messages {}", p.signature()), p.message, replay),
+            }
+            // the same frame followed by further frames: the bytes of the *next* message must not
+            // be taken for cut blocks
+            let mut stream = frame.clone();
+            for _ in 0..2 {
+                let h = MsgHeader::realistic(&mut rng, 2);
+                stream.extend_from_slice(&enc::frame(&h, &enc::encode_halfwords(&enc::gen_rda_status_in_domain(&mut rng)), 0));
+            }
+            ctx.obs.case(mix(116, mix(declared as u64, rep)));
+            match mon::catch(|| decode_messages(&mut Cursor::new(&stream[..]))) {
+                Ok(Err(_)) => ctx.obs.count("overlong_cut_counts_rejected", 1),
+                Ok(Ok(v)) => ctx.obs.violation(
+                    "cut count that does not fit the frame accepted when further frames follow",
+                    format!("declared {}: Ok with {} messages", declared, v.len()),
+                    json!({"declared_cuts": declared, "stream_len": stream.len()}),
+                ),
+                Err(p) => ctx.obs.violation(format!("decode_messages {}", p.signature()), p.message, json!({"declared_cuts": declared})),
             }
             // 2404-byte body alone
             let body = &frame[enc::MSG_HDR..];
